@@ -107,6 +107,7 @@ func c10ImplValue(tcb int, bad bool) cty.Value {
 }
 
 func tcbFails(tcb int) bool { return tcb == cbErr || tcb == cbPanic }
+
 const (
 	implOK = iota
 	implErr
@@ -547,7 +548,7 @@ func c10Check(u *U, fs fSpec, args []cty.Value, kinds []int) {
 			}
 		}
 	default:
-		state(fmt.Sprintf("S5-result|dyn=%v refine=%v marks=%v", retDyn, fs.refine, len(expectMarks) > 0)+fmt.Sprint(fs.tcb))
+		state(fmt.Sprintf("S5-result|dyn=%v refine=%v marks=%v", retDyn, fs.refine, len(expectMarks) > 0) + fmt.Sprint(fs.tcb))
 		if err != nil {
 			viol("result-error", fmt.Sprintf("everything succeeded but the call returned error %v", err))
 			return
